@@ -10,6 +10,53 @@ PARENT_CLASSES = ["nil", "latest:{c}", "anc:{c}:1", "anc:{c}:2", "anc:{c}:4", "b
                   "latest:{o}", "ver:{o}:0", "client:{c}"]
 
 
+def fixture_info():
+    """clean data directories written by the pinned release (fixtures/c19), usable as the starting state of
+    a case (`fixture NAME`): name -> {symbolic client: (number of accepted versions, has a snapshot)}"""
+    import os
+    from .common import VERIF
+    root = os.path.join(VERIF, "fixtures", "c19")
+    out = {}
+    for name in sorted(os.listdir(root)) if os.path.isdir(root) else []:
+        if name.startswith("wal") or name == "huge" or not os.path.isdir(os.path.join(root, name, "data")):
+            continue
+        ids, clients, nacc = [], {}, {}
+        for l in open(os.path.join(root, name, "ids.txt")):
+            t = l.split()
+            if t and t[0] == "id": ids.append(t[1])
+            if t and t[0] == "client": clients[int(t[1])] = t[2]
+            if t and t[0] == "accepted": nacc[int(t[1])] = nacc.get(int(t[1]), 0) + 1
+        snaps = {}
+        lines = open(os.path.join(root, name, "expected.trace")).read().split("\n")
+        for i, l in enumerate(lines):
+            if l.startswith("OP dump ") and i + 1 < len(lines) and lines[i + 1].startswith("R "):
+                d = Dump(lines[i + 1][2:])
+                snaps[l.split()[2]] = bool(d.ok and d.snap)
+        info = {}
+        for k, u in clients.items():
+            canon = str(ids.index(u) + 1) if u in ids else None
+            if nacc.get(k, 0) >= 1:
+                info[k] = (nacc[k], snaps.get(canon, False))
+        if info:
+            out[name] = info
+    return out
+
+
+def fixture_cases(prefix, rng, n, tail):
+    """n cases that start from a copy of a pinned-release data directory; tail(name, client, nacc, has_snapshot, other) -> ops"""
+    fx = fixture_info()
+    out = []
+    names = sorted(fx)
+    for k in range(n if names else 0):
+        name = names[k % len(names)]
+        cl = sorted(fx[name])
+        c = cl[(k // len(names)) % len(cl)]
+        o = cl[(cl.index(c) + 1) % len(cl)]
+        nacc, snap = fx[name][c]
+        out.append(Case(f"{prefix}-fixture-{k}", [f"fixture {name}"] + tail(name, c, nacc, snap, o), {"only": "sqlite", "fixture": name}))
+    return out
+
+
 def sizes(tier, quick, thorough):
     return thorough if tier == "thorough" else quick
 
@@ -104,6 +151,11 @@ class C01(L1Prop):
             for i in range(ni):
                 ops += [f"inst {i}"] + [f"walk {c}" for c in range(1, nc + 1)]
             out.append(Case(f"c01-inst-{k}", ops, {"only": "sqlite"}))
+        # the history does not start with this build: a data directory written by the pinned release
+        def tail(name, c, nacc, snap, o):
+            return [f"walk {c}", f"walk {o}", f"av {c} latest:{c} b:1,1", f"av {o} latest:{o} b:1,2", f"av {c} anc:{c}:1 b:1,3",
+                    f"walk {c}", f"walk {o}", "reopen", f"av {c} latest:{c} b:1,4", f"walk {c}"]
+        out += fixture_cases("c01", rng, sizes(tier, 7, 28), tail)
         return out
     def relevant(self, i, trace):
         o, ri, rm = trace[i]
@@ -340,6 +392,14 @@ class C02(L1Prop):
                 par = rng.choice(["latest:1"] * 5 + ["nil", "anc:1:1", "fresh"])
                 ops += ["dumpall", f"av 1 {par} b:{step},{k % 250}", "dumpall"]
             out.append(Case(f"c02-inst-{k}", ops, {"only": "sqlite"}))
+        # on a data directory written by the pinned release: every class of parent
+        classes = ["latest:{c}", "nil", "anc:{c}:1", "fresh", "base:{c}", "latest:{o}"]
+        def tail(name, c, nacc, snap, o):
+            ops = []
+            for j, cls in enumerate(classes):
+                ops += ["dumpall", f"av {c} {cls.format(c=c, o=o)} b:2,{j}", "dumpall"]
+            return ops
+        out += fixture_cases("c02", rng, sizes(tier, 7, 28), tail)
         return out
     def relevant(self, i, trace):
         o, ri, rm = trace[i]
@@ -414,6 +474,11 @@ class C07(L1Prop):
             ops += [f"http GET gcv hyph={'base:1' if i == 0 else 'ver:1:%d' % (i - 1)} hyph=1 absent e" for i in range(n)]
             ops += ["http POST av hyph=latest:1 hyph=1 history b:8,8", "http GET gcv hyph=nil hyph=1 absent e"]
             out.append(Case(f"c07-allow-{k}", ops, {"http": True}, mode="http"))
+        # history accepted by the pinned release stays what it was under this build
+        def tail(name, c, nacc, snap, o):
+            return [f"reread {c}", f"as {c} latest:{c} b:9,1", f"av {c} latest:{c} b:1,1", f"av {c} anc:{c}:2 b:1,2", f"reread {c}",
+                    f"as {c} anc:{c}:1 b:9,2", f"reread {c}", "reopen", f"av {c} latest:{c} b:1,3", f"reread {c}", f"reread {o}"]
+        out += fixture_cases("c07", rng, sizes(tier, 7, 28), tail)
         return out
     def relevant(self, i, trace):
         o, ri, rm = trace[i]
@@ -509,6 +574,12 @@ class C08(L1Prop):
                     spec = rng.choice(["latest:1", "anc:1:1", "anc:1:2", "nil"])
                     ops += [f"inst {rng.randrange(3)}", f"gcv 1 {spec}", f"av 1 {spec} b:77,{step}"]
             out.append(Case(f"c08-inst-{k}", ops, {"only": "sqlite"}))
+        def tail(name, c, nacc, snap, o):
+            ops = []
+            for j, spec in enumerate([f"latest:{c}", f"anc:{c}:1", "nil", f"base:{c}", "fresh", f"latest:{o}", f"anc:{c}:3"]):
+                ops += [f"gcv {c} {spec}", f"av {c} {spec} b:77,{j}"]
+            return ops
+        out += fixture_cases("c08", rng, sizes(tier, 7, 28), tail)
         return out
     def relevant(self, i, trace):
         o, ri, rm = trace[i]
@@ -1000,6 +1071,14 @@ class C10(L1Prop):
                     else:
                         ops.append(line)
             out.append(Case(f"c10-h-{j}", ops))
+        def tail(name, c, nacc, snap, o):
+            ops = []
+            for j, spec in enumerate([f"anc:{c}:1", f"latest:{c}", f"anc:{c}:2", f"anc:{c}:6", "nil", f"latest:{o}"]):
+                ops += [f"dump {c}", f"as {c} {spec} b:8,{j}", f"dump {c}", f"gs {c}"]
+                if j == 1:
+                    ops += [f"av {c} latest:{c} b:1,1", f"av {c} latest:{c} b:1,2"]
+            return ops
+        out += fixture_cases("c10", rng, sizes(tier, 7, 28), tail)
         return out
     def relevant(self, i, trace):
         o, ri, rm = trace[i]
@@ -1141,6 +1220,11 @@ class C11(L1Prop):
         # what GetSnapshot returns always come from the same upload
         from .props_http import interleaved_upload_cases
         out += interleaved_upload_cases("c11", rng, sizes(tier, 12, 100))
+        # a snapshot stored by the pinned release, then replaced under this build
+        def tail(name, c, nacc, snap, o):
+            return [f"gs {c}", f"swalk {c}", f"av {c} latest:{c} b:1,1", f"as {c} latest:{c} r:7000", f"gs {c}", f"av {c} latest:{c} b:1,2",
+                    f"as {c} latest:{c} b:5,5", f"gs {c}", f"swalk {c}", "reopen", f"gs {c}", f"gs {o}"]
+        out += fixture_cases("c11", rng, sizes(tier, 7, 28), tail)
         return out
     def relevant(self, i, trace):
         o, ri, rm = trace[i]
